@@ -6,9 +6,11 @@
      InvokeEnd(f, a, b)            the delegate's work for f ended (a = 0: value with id b; a > 0: exception id b)
      DelegateDone(f, a)            the delegate future's completion INCLUDING its done-callbacks has returned
                                    (a = 0 success, 1 failure); only then must f be shown to the poll function
-     (the descriptor snapshot is taken just before the poll function is entered, so "must be shown" is only
-      demanded of futures that were ready before the PREVIOUS call returned; the promptness clause makes
-      sure a newly eligible future triggers another poll at once)
+     (A poll call "begins" when the executor takes its descriptor snapshot, a few instructions before the poll
+      function is entered, which is where PollCall is recorded.  Hence "must be shown" is demanded of futures that
+      were ready before the PREVIOUS call returned and "must not be shown" of futures whose resolving call had
+      returned before the PREVIOUS call returned; the promptness clause makes sure a newly eligible future triggers
+      another poll at once, and a stale descriptor shows up in every later call.)
      PollCall(k, xs)               the poll function is entered for the k-th time; xs = <<f1, r1, f2, r2, ...>>:
                                    the futures it is shown and the delegate result id each descriptor carries
      Yield(f, k, a, b)             inside call k the poll function yields for f (a = 0 value / 1 exception, id b)
@@ -33,6 +35,8 @@ ObsInit == [open |-> 0,            \* index of the poll call in progress (0 = no
             failed |-> EmptyMap,   \* f -> id of the delegate's exception
             ready |-> {},          \* delegate completion incl. callbacks has returned, successfully
             old |-> {},            \* ... and had done so before the previous poll call returned (surely registered)
+            rold |-> {},           \* futures whose resolving call had returned before the previous poll call returned
+                                   \* (surely deregistered before this call's descriptor snapshot)
             src |-> EmptyMap,      \* f -> <<a, b>>: the first thing that resolved f (yield / poll raise / delegate failure)
             resolving |-> {},      \* futures for which a resolving call (yield, cancel) has started
             resolved |-> {},       \* futures for which a resolving call has returned
@@ -55,10 +59,11 @@ ObsNext(st, e) ==
     [] e.ev = "Yield" -> [st EXCEPT !.resolving = @ \cup {e.f},
                                     !.src = IF Has(@, e.f) THEN @ ELSE Put(@, e.f, <<e.a, e.b>>)]
     [] e.ev = "YieldRet" -> [st EXCEPT !.resolved = @ \cup {e.f}]
+    [] e.ev = "Observed" /\ e.s = "FINISHED" -> [st EXCEPT !.resolved = @ \cup {e.f}]
     [] e.ev = "PollRet" ->
-          [st EXCEPT !.open = 0, !.lastret = e.t, !.shown = <<>>, !.old = st.ready,
+          [st EXCEPT !.open = 0, !.lastret = e.t, !.shown = <<>>, !.old = st.ready, !.rold = st.resolved,
                      !.resolving = IF e.a = 1 THEN @ \cup SeqToSet(st.shown) ELSE @,
-                     !.resolved = IF e.a = 1 THEN @ \cup (SeqToSet(st.shown) \ st.cancelling) ELSE @,
+                     \* (the futures it was shown are failed right after the raise: resolved once seen FINISHED)
                      !.src = IF e.a = 1
                                THEN [f \in DOMAIN @ \cup SeqToSet(st.shown) |-> IF Has(@, f) THEN @[f] ELSE <<1, e.b>>]
                                ELSE @]
@@ -84,7 +89,7 @@ Clauses(st, e) ==
                                   f \in SeqToSet(Shown(e.xs))>>,
      <<"C08_DescriptorsMustNot",
         e.ev = "PollCall" => \A i \in DOMAIN Shown(e.xs) :
-             LET f == Shown(e.xs)[i] IN Has(st.res, f) /\ f \notin st.resolved /\ ~Has(st.failed, f)>>,
+             LET f == Shown(e.xs)[i] IN Has(st.res, f) /\ f \notin st.rold /\ ~Has(st.failed, f)>>,
      <<"C08_ResultCarried",
         e.ev = "PollCall" => \A i \in DOMAIN Pairs(e.xs) :
              LET p == Pairs(e.xs)[i] IN Has(st.res, p[1]) => st.res[p[1]] = p[2]>>,
